@@ -322,6 +322,20 @@ def run_stmt(p, s, loc, st):
                     return o
             if post is not None:
                 run_stmt(p, post, loc, st)
+    elif t == "range":
+        # phase 4: for key = range <slice of length len> — Go's semantics: the length is evaluated once, the key is
+        # assigned at the top of every iteration (the hidden slots ref/iv of the model are not program variables)
+        _, lbl, key, _ref, _iv, ln, body = s
+        n = ev(ln, loc, st)
+        for k in range(max(n, 0)):
+            if key is not None:
+                loc[key] = k
+            o = run_block(p, body, loc, st)
+            if o is not None:
+                if o[0] == "break" and targets(o[1], lbl):
+                    break
+                if not (o[0] == "continue" and targets(o[1], lbl)):
+                    return o
     elif t in ("break", "continue"):
         return (t, s[1])
     elif t == "return":
@@ -411,6 +425,13 @@ def go_block(p, fn, body, ind, L):
                 L.append("%sL%d:" % (pad, lbl))
             L.append("%sfor %s; %s; %s {" % (pad, go_simple(p, fn, init) if init else "", go_expr(fn, c),
                                             go_simple(p, fn, post) if post else ""))
+            go_block(p, fn, body2, ind + 1, L)
+            L.append(pad + "}")
+        elif t == "range":
+            _, lbl, key, _ref, _iv, ln, body2 = s
+            if lbl is not None:
+                L.append("%sL%d:" % (pad, lbl))
+            L.append("%sfor %srange make([]struct{}, %s) {" % (pad, "" if key is None else vname(fn, key) + " = ", go_expr(fn, ln)))
             go_block(p, fn, body2, ind + 1, L)
             L.append(pad + "}")
         elif t in ("break", "continue"):
